@@ -950,10 +950,10 @@ func boundedRecursion(c *an.Ctx, fns []*ssa.Function, scope map[*ssa.Function][]
 	var cyc []edge
 	for _, fn := range fns {
 		for _, e := range p.OutEdges(fn) {
-			if !inScope[e.Callee] {
+			if !inScope[e.Callee] || errorChainCall(e) {
 				continue
 			}
-			back := p.Reach([]*ssa.Function{e.Callee}, func(x an.CallEdge) bool { return inScope[x.Callee] })
+			back := p.Reach([]*ssa.Function{e.Callee}, func(x an.CallEdge) bool { return inScope[x.Callee] && !errorChainCall(x) })
 			if _, ok := back[fn]; !ok {
 				continue
 			}
@@ -1395,4 +1395,15 @@ func afterInclusionCheck(c *an.Ctx, fn, walker *ssa.Function, depth int, seen ma
 		}
 	}
 	return n > 0
+}
+
+// errorChainCall: a dynamic call of Error or Unwrap on a value of the interface type error. Such a call walks a
+// chain of wrapped errors, which is built from the inside out and never refers back to itself; resolving it
+// by method name makes every wrapper type of the module look recursive.
+func errorChainCall(e an.CallEdge) bool {
+	cc := e.Site.Common()
+	if !cc.IsInvoke() || !an.IsErrorType(cc.Value.Type()) {
+		return false
+	}
+	return cc.Method.Name() == "Error" || cc.Method.Name() == "Unwrap"
 }
